@@ -539,8 +539,11 @@ class GhostOS:
         self.step = 0
         self.fault_at = fault_at
         self.log = []
+        self.on_tick = []
 
     def _tick(self, what):
+        for cb in self.on_tick:
+            cb(what)          # the state *before* this step = what a crash at this point leaves behind
         self.step += 1
         self.log.append(what)
         if self.fault_at is not None and self.step == self.fault_at:
@@ -595,6 +598,28 @@ def install_ghost_os(h, I, fault_at=None):
         else:
             I_.raise_('FileNotFoundError', s)
     I.models['os.rename'] = rename
+
+    def remove(I_, p):
+        key = _key(p)
+        gos._tick(f'remove {key}')
+        if key in gos.json:
+            del gos.json[key]
+        elif key in I_.hooks['nc_files']:
+            del I_.hooks['nc_files'][key]
+        else:
+            I_.raise_('FileNotFoundError', key)
+    I.models['os.remove'] = remove
+    I.models['os.unlink'] = remove
+
+    def rmdir(I_, p):
+        key = _key(p)
+        gos._tick(f'rmdir {key}')
+        if key not in gos.dirs:
+            I_.raise_('FileNotFoundError', key)
+        if any(q.startswith(key + '/') for q in list(gos.json) + list(I_.hooks['nc_files'])):
+            I_.raise_('OSError', 'Directory not empty: ' + key)
+        gos.dirs.discard(key)
+    I.models['os.rmdir'] = rmdir
 
     def open_(I_, p, mode='r', **k):
         key = _key(p)
